@@ -7,6 +7,7 @@ package c16
 import (
 	"fmt"
 	"math"
+	"sort"
 	"strings"
 
 	"pgregory.net/rapid"
@@ -485,6 +486,9 @@ func (g *sgen) mutate(v any, schema any, isInput, allowRootNull bool) (any, stri
 		}
 		if obj, ok := cur.(map[string]any); ok {
 			kinds = append(kinds, "extrakey", "extrakey", "extrakey")
+			if props, _ := s["properties"].(map[string]any); isInput && len(props) > 0 && len(obj) > 0 {
+				kinds = append(kinds, "casekey", "casekey", "casekey", "casekey")
+			}
 			req, _ := s["required"].([]any)
 			for _, r := range req {
 				if _, present := obj[r.(string)]; present {
@@ -572,6 +576,31 @@ func (g *sgen) mutate(v any, schema any, isInput, allowRootNull bool) (any, stri
 		return setAt(v, n.path, arr), label
 	case "extrakey":
 		cur.(map[string]any)["zzz"] = []any{1.0, "s", true}[g.pick(2+1, "extraval")]
+		return v, label
+	case "casekey":
+		// a declared member spelt in another letter case, with an out-of-range value; the correctly spelt
+		// member is removed (or kept): to the schema this is an additional property
+		obj := cur.(map[string]any)
+		var keys []string
+		for k := range obj {
+			keys = append(keys, k)
+		}
+		sort.Strings(keys)
+		k := keys[g.pick(len(keys), "casewhich")]
+		variant := strings.ToUpper(k[:1]) + k[1:]
+		if variant == k {
+			variant = strings.ToLower(k[:1]) + k[1:]
+		}
+		if g.coin("caseall") {
+			variant = strings.ToUpper(k)
+		}
+		val := []any{999.0, "NOPE-NOPE-NOPE", true, obj[k]}[g.pick(4, "caseval")]
+		if g.coin("casedrop") {
+			delete(obj, k)
+		}
+		if variant != k {
+			obj[variant] = val
+		}
 		return v, label
 	case "dropreq":
 		obj := cur.(map[string]any)
